@@ -631,7 +631,52 @@ def d4(ctx, prog):
     return n_cfg
 
 
+def d5_views(ctx, prog):
+    """no reinterpreting view of a caller's array in the cipher modules: `x.view(dtype)` re-reads the memory of x under another
+    item size - for a key (or state) given with a wider integer dtype, all accepted as long as the values are bytes, the bytes
+    seen are not the values (identity for uint8 only).  Accepted: the view of an array made in the function with a pinned dtype
+    (`astype` / `np.array(..., dtype=)` / `np.asarray(..., dtype=)` / `np.ascontiguousarray(..., dtype=)`)."""
+    n = 0
+    for modname in (D, A):
+        for f in prog.funcs_in(modname):
+            ldefs = astutil.local_defs(f.node)
+            for c in ast.walk(f.node):
+                if not (isinstance(c, ast.Call) and isinstance(c.func, ast.Attribute) and c.func.attr == 'view' and (c.args or any(k.arg == 'dtype' for k in c.keywords))):
+                    continue
+                n += 1
+                key = f'{f.key}::{norm(c)[:60]}'
+                r = astutil.expand_locals(c.func.value, ldefs)
+                pinned = False
+                cur = r
+                while True:
+                    if isinstance(cur, ast.Call) and isinstance(cur.func, ast.Attribute) and cur.func.attr == 'astype':
+                        pinned = True
+                        break
+                    if isinstance(cur, ast.Call) and norm(cur.func).split('.')[-1] in ('array', 'asarray', 'ascontiguousarray', 'zeros', 'empty', 'ones', 'frombuffer') \
+                            and (any(k.arg == 'dtype' for k in cur.keywords) or len(cur.args) > 1):
+                        pinned = True
+                        break
+                    if isinstance(cur, ast.Call) and isinstance(cur.func, ast.Attribute) and cur.func.attr in ('reshape', 'ravel', 'flatten', 'copy', 'swapaxes', 'transpose', 'squeeze'):
+                        cur = cur.func.value
+                    elif isinstance(cur, ast.Subscript):
+                        cur = cur.value
+                    elif isinstance(cur, ast.Attribute) and cur.attr == 'T':
+                        cur = cur.value
+                    else:
+                        break
+                if pinned:
+                    ctx.ok('C10-D5', key, 'view of an array created with a pinned dtype in this function', f.where(c))
+                elif isinstance(cur, ast.Name) and cur.id in f.params:
+                    ctx.fail('C10-D5', key, f'`{norm(c)[:60]}` re-interprets the memory of the argument `{cur.id}` instead of converting its values: with a key / state given in a wider integer dtype '
+                             '(accepted as long as the values are bytes) the bytes read are the little-endian bytes of the first elements, not the values - identity for uint8 only', f.where(c))
+                else:
+                    ctx.undecided('C10-D5', key, f'cannot tell whether `{norm(r)[:50]}` has a pinned dtype', f.where(c))
+    return n
+
+
 def run(ctx, prog):
+    ctx.rule('C10-D5', 'no reinterpreting `.view(dtype)` of an argument in the cipher modules (a view re-reads memory, it does not convert values); expected count on the unchanged tree is zero, a positive example is kept in the battery')
+    ctx.count('reinterpreting_views_seen', d5_views(ctx, prog))
     ctx.rule('C10-D1', 'DES schedule: bit provenance of all 16 x 48 round-key bits = PC-2 o rot o PC-1; literal tables; interruption and width')
     ctx.rule('C10-D2', 'DES inversion constants and index maps')
     ctx.rule('C10-D3', 'AES expansion: term of every branch equals FIPS-197 5.2 forward, and its solved form backward; window copy')
